@@ -1,4 +1,317 @@
-import Kap.Basic
+/-
+Driver for C06: reads the cases the Go harness produced by running the REAL code and judges each one
+  * spec on the OBSERVED output first (identity: equal ids ⇔ same group; group-by tags as configured;
+    isolation: full run filtered to g = run on g alone) → SPECFAIL / KNOWN,
+  * then observed = model (toGroupID, determineTagNames/computeTagNames, the demultiplexer with the concrete
+    receivers) → MISMATCH.
+-/
+import Kap.Spec.C06
+open Kap Kap.C06
 
-/-- Driver for property C06 (replaced by the property's driver). -/
-def main : IO Unit := Kap.driverMain (fun _ _ => .badop "driver not implemented")
+namespace Kap.C06.Drv
+
+/-! ### parsing -/
+
+def parseList (tok : String) : Option (List String) :=
+  if tok == "-" then some [] else (tok.splitOn ",").mapM unesc
+
+def parseKV (kv : String) : Option (String × String) :=
+  match kv.splitOn "=" with
+  | [k, v] => do pure ((← unesc k), (← unesc v))
+  | _ => none
+
+def parseTags (tok : String) : Option Tags :=
+  if tok == "-" then some [] else (tok.splitOn ",").mapM parseKV
+
+/-- the value of field `v` in a fields token (`k=i:5,k=s:abc,…`) -/
+def parseV (tok : String) : Option Val :=
+  if tok == "-" then some .missing else
+  match (tok.splitOn ",").find? (fun kv => kv.startsWith "v=") with
+  | none => some .missing
+  | some kv =>
+    let x := (kv.drop 2).toString
+    if x.startsWith "i:" then (x.drop 2).toString.toInt?.map Val.int
+    else if x.startsWith "s:" then (unesc (x.drop 2).toString).map Val.str
+    else if x.startsWith "b:" then some (.bool ((x.drop 2).toString == "1"))
+    else if x.startsWith "f:" then some (.flt (x.drop 2).toString)
+    else none
+
+def b01? (s : String) : Option Bool := if s == "1" then some true else if s == "0" then some false else none
+
+/-- rendering of the structured group key, identical to the harness' `gkey` -/
+def gkey (byName : Bool) (name : String) (dims : List String) (tags : Tags) : String :=
+  let b := if byName then "1" else "0"
+  let n := if byName then esc name else "%"
+  let ps := dims.map (fun d => esc d ++ "=" ++ esc (tagVal tags d))
+  b ++ "~" ++ n ++ "~" ++ (if ps.isEmpty then "-" else ",".intercalate ps)
+
+def renderList (l : List String) : String := if l.isEmpty then "-" else ",".intercalate (l.map esc)
+
+def addBr (brs : List String) (b : String) : List String := if brs.contains b then brs else brs ++ [b]
+
+/-! ### identity verdict shared by gid and gb cases -/
+
+/-- all pairs violating "equal ids ⇔ same group" -/
+def badPairs : List (GPoint × String) → List ((GPoint × String) × (GPoint × String))
+  | [] => []
+  | (p, i) :: rest =>
+    (rest.filter (fun (q, j) => (i == j) != sameGroup p q)).map (fun qj => ((p, i), qj)) ++ badPairs rest
+
+def modelId (p : GPoint) : String := toGroupID p.byName p.name p.tags p.dims
+
+/-- a violating pair is the recorded deviation iff it is a COLLISION of two different groups, predicted by the
+transcribed encoding, with a non-clean point -/
+def explained (pr : (GPoint × String) × (GPoint × String)) : Bool :=
+  let ((p, i), (q, j)) := pr
+  i == j && i == modelId p && j == modelId q && devDelimiter p q
+
+def describe (p : GPoint) : String :=
+  s!"{boolTok p.byName}/{esc p.name}/{renderList p.dims}/{",".intercalate (p.dims.map (fun d => esc (tagVal p.tags d)))}"
+
+def identityVerdict (obs : List (GPoint × String)) : Option Verdict :=
+  let bad := badPairs obs
+  match bad.find? (fun pr => !explained pr) with
+  | some ((p, i), (q, j)) =>
+    some (.specfail "same-group-iff-same-id" s!"{describe p} id {esc i} vs {describe q} id {esc j} sameGroup={boolTok (sameGroup p q)}")
+  | none =>
+    match bad with
+    | ((p, i), (q, _)) :: _ => some (.known "groupid-delimiter-collision" s!"{describe p} and {describe q} share id {esc i}")
+    | [] => none
+
+def pairBranches (obs : List (GPoint × String)) (brs : List String) : List String := Id.run do
+  let mut b := brs
+  for (p, _) in obs do
+    b := addBr b (match p.dims, p.byName with
+      | [], true => "id-name-only" | [], false => "id-nil-group"
+      | [_], true => "id-name+1dim" | [_], false => "id-1dim"
+      | _, true => "id-name+dims" | _, false => "id-dims")
+    if p.dims.any (fun d => !(p.tags.any (fun kv => kv.1 == d))) then b := addBr b "id-missing-tag"
+    if !cleanPoint p then b := addBr b "id-unclean"
+  let rec pairs : List (GPoint × String) → List String → List String
+    | [], b => b
+    | (p, _) :: rest, b =>
+      let b := rest.foldl (fun b (q, _) => addBr b (if sameGroup p q then "pair-same-group" else
+        if p.dims == q.dims then "pair-diff-group" else "pair-diff-dims")) b
+      pairs rest b
+  pairs obs b
+
+/-! ### gid cases -/
+
+def judgeGid (lines : Array String) : Verdict := Id.run do
+  let mut obs : List (GPoint × String) := []
+  for l in lines do
+    let (opT, o) := splitObs (tokens l)
+    match opT, o with
+    | ["gid", b, name, dims, tags], [id] =>
+      let some b := b01? b | return .badop l
+      let some name := unesc name | return .badop l
+      let some dims := parseList dims | return .badop l
+      let some tags := parseTags tags | return .badop l
+      if id == "panic" then return .specfail "same-group-iff-same-id" s!"ToGroupID panicked: {l}"
+      let some id := unesc id | return .badop l
+      obs := obs ++ [({ byName := b, name := name, tags := tags, dims := dims }, id)]
+    | _, _ => return .badop l
+  let iv := identityVerdict obs
+  if let some (.specfail c d) := iv then return .specfail c d
+  for (p, i) in obs do
+    if modelId p != i then return .mismatch s!"ToGroupID {describe p}: model {esc (modelId p)} observed {esc i}"
+  if let some v := iv then return v
+  let brs := pairBranches obs []
+  return .ok (obs.length ≥ 2 && obs.any (fun pi => !pi.1.dims.isEmpty)) brs
+
+/-! ### gb cases -/
+
+def judgeGb (lines : Array String) : Verdict := Id.run do
+  let mut cfg : Option (Bool × Bool × Bool × List String × List String) := none  -- from?, byName, star, dims, excl
+  let mut obs : List (GPoint × String) := []
+  let mut brs : List String := []
+  let mut mism : Option String := none
+  for l in lines do
+    let (opT, o) := splitObs (tokens l)
+    match opT with
+    | ["gb", mode, b, star, dims, excl] =>
+      let some b := b01? b | return .badop l
+      let some star := b01? star | return .badop l
+      let some dims := parseList dims | return .badop l
+      let some excl := parseList excl | return .badop l
+      cfg := some (mode == "from", b, star, dims, excl)
+      brs := addBr brs (if mode == "from" then "gb-from" else "gb-node")
+      brs := addBr brs (if star then (if excl.isEmpty then "gb-star" else "gb-star-exclude") else
+        (if dims.isEmpty then "gb-nodims" else if sortStrings dims != dims then "gb-named-unsorted" else "gb-named"))
+      if b then brs := addBr brs "gb-byname"
+    | ["pt", name, tags, _fields, _time] =>
+      let some (isFrom, b, star, dims, excl) := cfg | return .badop l
+      let some name := unesc name | return .badop l
+      let some tags := parseTags tags | return .badop l
+      match o with
+      | [id, ob, od] =>
+        let some id := unesc id | return .badop l
+        let some ob := b01? ob | return .badop l
+        let some od := parseList od | return .badop l
+        -- spec on the observed grouping
+        if !dimsOk star dims (if isFrom then [] else excl) tags od then
+          return .specfail "group-by-tags-as-configured" s!"point tags {renderList (tags.map (·.1))}: observed dimensions {renderList od}"
+        if ob != b then
+          return .specfail "group-by-tags-as-configured" s!"byName observed {boolTok ob} configured {boolTok b}"
+        obs := obs ++ [({ byName := ob, name := name, tags := tags, dims := od }, id)]
+        -- model
+        let ex := if isFrom then [] else excl
+        let md := computeTagNames tags star (determineTagNames dims ex) ex
+        let mid := toGroupID b name tags md
+        if (md, mid) != (od, id) && mism.isNone then
+          mism := some s!"groupBy point {esc name}: model {renderList md} {esc mid} observed {renderList od} {esc id}"
+      | [st] => return .specfail "group-by-tags-as-configured" s!"run status {st}"
+      | _ => return .badop l
+    | _ => return .badop l
+  let iv := identityVerdict obs
+  if let some (.specfail c d) := iv then return .specfail c d
+  if let some m := mism then return .mismatch m
+  if let some v := iv then return v
+  return .ok (obs.length ≥ 2) (pairBranches obs brs)
+
+/-! ### iso cases -/
+
+def parseMsgTok (tok : String) : Option (ObsMsg × String) :=   -- (message, "key|time|proj")
+  match tok.splitOn "|" with
+  | _kind :: key :: time :: proj :: _ => some ({ key := key, tok := tok }, s!"{key}|{time}|{proj}")
+  | _ => none
+
+/-- observed run: either a status (anything but a message list) or the messages -/
+def parseRun (toks : List String) : Except String (List (ObsMsg × String)) :=
+  match toks with
+  | ["-"] => .ok []
+  | [] => .error "empty"
+  | t :: _ =>
+    if t.startsWith "P|" || t.startsWith "B|" then
+      match toks.mapM parseMsgTok with
+      | some l => .ok l
+      | none => .error "unparsable"
+    else .error t
+
+inductive ModelKind where
+  | sample (n : Nat) | statecount (t : Int) | wherecount (m r : Nat) | evalcount
+  | alert (pr : CountPred) | iql (m : Method)
+
+def modelKind? (kind : String) (p1 p2 : Nat) : Option ModelKind :=
+  match kind with
+  | "sample" => some (.sample p1)
+  | "statecount" => some (.statecount p1)
+  | "wherecount" => some (.wherecount p1 p2)
+  | "evalcount" => some .evalcount
+  | "alertgt" => some (.alert (.gt p1))
+  | "alertmod" => some (.alert (.mod p1))
+  | "sum" => some (.iql .sum)
+  | "count" => some (.iql .count)
+  | _ => none
+
+def renderOuts (l : List (GroupID × Out)) : List String := l.map (fun go => s!"{go.2.key}|{go.2.time}|{go.2.proj}")
+
+/-- the model of the node AS THE CODE IS TODAY -/
+def runModel (k : ModelKind) (items : List (Item Pt)) : List String :=
+  match k with
+  | .sample n => renderOuts (runNode (sampleNode n) () items)
+  | .statecount t => renderOuts (runNode (stateCountNode t) () items)
+  | .wherecount m r => renderOuts (runNode (whereCountNode m r) () items)
+  | .evalcount => renderOuts (runNode evalCountNode () items)
+  | .alert pr => renderOuts (runNode (alertNodeShared pr) 0 items)
+  | .iql m => renderOuts (runNode (iqlNode m) {} items)
+
+/-- float sums / float comparisons are outside the concrete models -/
+def modelApplies (k : ModelKind) (pts : List Pt) : Bool :=
+  match k with
+  | .iql .sum | .statecount _ => pts.all (fun p => match p.v with | .flt _ => false | _ => true)
+  | _ => true
+
+def distinctKeys (ks : List String) : List String := ks.foldl (fun acc k => if acc.contains k then acc else acc ++ [k]) []
+
+def switches : List String → Nat
+  | a :: b :: rest => (if a != b then 1 else 0) + switches (b :: rest)
+  | _ => 0
+
+def judgeIso (lines : Array String) : Verdict := Id.run do
+  let mut cfg : Option (String × Nat × Nat × Bool × List String) := none
+  let mut pts : List (Pt × GroupID) := []
+  let mut full : Option (List (ObsMsg × String)) := none
+  let mut solo : List (String × List ObsMsg) := []
+  for l in lines do
+    let (opT, o) := splitObs (tokens l)
+    match opT with
+    | ["node", kind, p1, p2, b, dims] =>
+      let some p1 := p1.toNat? | return .badop l
+      let some p2 := p2.toNat? | return .badop l
+      let some b := b01? b | return .badop l
+      let some dims := parseList dims | return .badop l
+      cfg := some (kind, p1, p2, b, sortStrings dims)
+    | ["pt", name, tags, fields, time] =>
+      let some (_, _, _, b, dims) := cfg | return .badop l
+      let some name := unesc name | return .badop l
+      let some tags := parseTags tags | return .badop l
+      let some v := parseV fields | return .badop l
+      let some time := time.toInt? | return .badop l
+      pts := pts ++ [({ name := name, key := gkey b name dims tags, v := v, time := time }, toGroupID b name tags dims)]
+    | ["full"] =>
+      match parseRun o with
+      | .ok ms => full := some ms
+      | .error st =>
+        if st == "err:compile" then return .badop s!"script does not compile: {l}"
+        return .specfail "isolation" s!"full run status {st}"
+    | ["solo", g] =>
+      match parseRun o with
+      | .ok ms => solo := solo ++ [(g, ms.map (·.1))]
+      | .error st => return .specfail "isolation" s!"solo run of {g} status {st}"
+    | _ => return .badop l
+  let some (kind, p1, p2, _, _) := cfg | return .badop "no node line"
+  let some fullR := full | return .badop "no full line"
+  let keys := pts.map (·.1.key)
+  if distinctKeys keys != solo.map (·.1) then
+    return .badop s!"solo groups {solo.map (·.1)} are not the groups of the input {distinctKeys keys}"
+  -- the property, on what the implementation emitted
+  let fullMsgs := fullR.map (·.1)
+  if !isolationHolds fullMsgs solo then
+    let g := match solo.find? (fun gs => !isolatedFor fullMsgs gs.1 gs.2) with
+      | some gs => gs.1 | none => "output-for-a-group-without-input"
+    return .specfail "isolation" s!"node {kind}: group {g}: full run filtered to the group differs from the run on the group alone"
+  -- the tie
+  let mut brs : List String := [kind]
+  if (distinctKeys keys).length ≥ 3 then brs := addBr brs "groups>=3"
+  if switches keys ≥ 3 then brs := addBr brs "interleaved"
+  if (distinctKeys (pts.map (·.2))).length < (distinctKeys keys).length then brs := addBr brs "id-collision-in-run"
+  let ptsOnly := pts.map (·.1)
+  if ptsOnly.any (fun p => p.v == .missing) then brs := addBr brs "field-missing"
+  let kinds := distinctKeys (ptsOnly.filterMap (fun p => p.v.kind?.map (fun k => reprStr k)))
+  if kinds.length ≥ 2 then brs := addBr brs "mixed-field-types"
+  match modelKind? kind p1 p2 with
+  | none => brs := addBr brs "relational-only"
+  | some mk =>
+    if modelApplies mk ptsOnly then
+      let items := pts.map (fun pg => Item.point pg.2 pg.1)
+      let m := runModel mk items
+      let o := fullR.map (·.2)
+      if m != o then return .mismatch s!"node {kind} {p1} {p2}: model {m} observed {o}"
+      brs := addBr brs "modelled"
+      match mk with
+      | .iql meth =>
+        if ptsOnly.any (fun p => match p.v.kind? with | some k => (determine meth k).isNone | none => false) then
+          brs := addBr brs "iql-unsupported-kind"
+        if switches (ptsOnly.map (fun p => s!"{p.key}|{p.time}")) < ptsOnly.length - 1 then brs := addBr brs "iql-equal-time-run"
+        if m.any (fun t => t.endsWith "|i:0") then brs := addBr brs "iql-emit-zero"
+      | .alert _ =>
+        if m.any (fun t => t.endsWith "|s:OK") then brs := addBr brs "alert-recovery"
+      | .statecount _ =>
+        if m.length < ptsOnly.length then brs := addBr brs "statecount-eval-error-drop"
+        if m.any (fun t => t.endsWith "|i:-1") then brs := addBr brs "statecount-reset"
+      | _ => pure ()
+    else brs := addBr brs "model-not-applicable"
+  return .ok ((distinctKeys keys).length ≥ 2 && switches keys ≥ 2 && !fullR.isEmpty) brs
+
+def judge (_id : String) (lines : Array String) : Verdict :=
+  if lines.isEmpty then .badop "empty case" else
+  let first := (tokens lines[0]!).headD ""
+  if first == "gid" then judgeGid lines
+  else if first == "gb" then judgeGb lines
+  else if first == "node" then judgeIso lines
+  else .badop s!"unknown case kind {first}"
+
+end Kap.C06.Drv
+
+def main : IO Unit := Kap.driverMain Kap.C06.Drv.judge
